@@ -122,6 +122,11 @@ func checkPositionedReads(p *Program, r *Result) {
 					ok = true
 				}
 			}
+			if !ok && p.transparent(fn) {
+				// the positioning may be the caller's job: an unexported helper is fine when every one of its call sites is
+				// preceded by one
+				ok = precededBy(p, in, func(c2 ssa.CallInstruction) bool { return isPositioning(c2) }, 2)
+			}
 			if ok {
 				r.held("C02.k", funcName(fn), construct, p.pos(in.Pos()), "preceded on every path by an absolute seek of the shared stream")
 			} else {
